@@ -38,7 +38,7 @@ Definition kind126 (g : cfg126) : kind := {|
 
 Definition kind127 (h : cfg127) (quirk : bool) : kind := {|
   k_reset := reset_127;
-  k_ensure_ready := fun _ => Ret tt;
+  k_ensure_ready := fun m => ensure_ready_127 (match m with MSleep => true | _ => false end);
   k_standby := set_standby_127;
   k_sleep := fun _ => set_sleep_127;
   k_init := fun sw => _ <- init_lora_127 h sw ;; Ret tt;
